@@ -29,18 +29,21 @@ def _save(w):
             "plan": list(w.plan), "counter": w.counter}
 
 
-def _restore(w, sv):
-    FS.files, FS.history, FS.synced = sv["fs_files"], sv["fs_hist"], sv["fs_synced"]
+def _restore(w, sv, keep_counts=False):
+    """Bring the simulated store and the model back to the snapshot (the snapshot itself stays pristine)."""
+    FS.files, FS.history, FS.synced = _copy.deepcopy(sv["fs_files"]), _copy.deepcopy(sv["fs_hist"]), _copy.deepcopy(sv["fs_synced"])
     for h in FS.handles[len(sv["fs_handles"]):]:
         h._closed = True
-    FS.handles = sv["fs_handles"]
+    FS.handles = list(sv["fs_handles"])
     FS.total_calls = sv["fs_total"]
-    FS.fired = sv["fs_fired"]
-    w.files = sv["files"]
-    w.counts = sv["counts"]
+    FS.fired = list(sv["fs_fired"])
+    w.files = _copy.deepcopy(sv["files"])
+    if not keep_counts:
+        w.counts = list(sv["counts"])
     w.n_writes, w.n_reads, w.n_disk = sv["n"]
-    w.plan = sv["plan"]
+    w.plan = list(sv["plan"])
     w.counter = sv["counter"]
+    w.handles.clear()
 
 
 def _plain(w, s, fn):
@@ -138,8 +141,20 @@ def run_with_fault(w, s, fn):
         _restore(w, sv)
     if not dry_ok or n_calls == 0:
         return _plain(w, s, fn) + ":nofault"
-    j = min(n_calls, 1 + int(fault["frac"] * n_calls))
     kind = fault["kind"]
+    if fault.get("sweep"):
+        # exhaustive fault-point enumeration for this step: every storage call j in [1, N], each on the same pre-state
+        for j in range(1, n_calls + 1):
+            _restore(w, sv, keep_counts=True)
+            _faulted(w, s, fn, j, n_calls, kind, fault, props, recovery_inline=True)
+        _restore(w, sv, keep_counts=True)
+        w.count("fault:sweep_steps")
+        return _plain(w, s, fn) + ":swept%d" % n_calls
+    j = min(n_calls, 1 + int(fault["frac"] * n_calls))
+    return _faulted(w, s, fn, j, n_calls, kind, fault, props, recovery_inline=False)
+
+
+def _faulted(w, s, fn, j, n_calls, kind, fault, props, recovery_inline):
     # ---- the faulted execution
     w.props = set()
     FS.begin_step(armed=(j, kind))
@@ -174,12 +189,38 @@ def run_with_fault(w, s, fn):
         if not FS.exists(path):
             del w.files[path]
     # ---- narrow oracle
+    where = "after an injected %s at storage call %d/%d (%s) of %s" % (kind, j, n_calls, site, s["op"])
     for path in affected_paths(s):
-        verify_known(w, path, "after an injected %s at storage call %d/%d (%s) of %s" % (kind, j, n_calls, site, s["op"]))
-    # ---- bounded recovery, once the last fault has been injected
-    if w.faults_left == 0 and affected_paths(s):
+        verify_known(w, path, where)
+    # ---- bounded recovery
+    if recovery_inline:
+        for path in affected_paths(s)[:1]:
+            recover_now(w, path, where)
+    elif w.faults_left == 0 and affected_paths(s):
         path = affected_paths(s)[0]
         from dsim.worlds.files import gen_dataset_spec
         w.plan = [lambda w_, r_, p=path: {"op": "ds_write", "path": p, "mode": "w", "spec": gen_dataset_spec(r_, w_.cfg), "recovery": True},
                   lambda w_, r_, p=path: {"op": "read", "path": p, "how": "read_nc", "recovery": True}] + w.plan
     return "faulted:%s:%s" % (kind if fired else "notreached", out.split(":")[0])
+
+
+RECOVERY_SPEC = {"dims": {"x": [1, 2]}, "axattrs": {"x": {}}, "attrs": {"title": "recovery"},
+                 "vars": [{"name": "va", "dims": ["x"], "dtype": "f8", "values": [1.0, 2.0], "attrs": {}}]}
+
+
+def recover_now(w, path, where):
+    """Within two steps after the fault: a fresh write_nc(mode='w') and a read_nc of the path must succeed."""
+    from dsim.worlds.files import build_dataset
+    ds = build_dataset(RECOVERY_SPEC)
+    try:
+        ds.write_nc(path, mode="w")
+        back = w.da.read_nc(path)
+        ok = list(back.keys()) == ["va"] and V._close(back["va"].values, ds["va"].values, 0)
+        err = "content differs" if not ok else None
+    except Exception as e:
+        ok, err = False, "%s: %s" % (type(e).__name__, str(e)[:160])
+    finally:
+        F.finalize_leaks(w)
+    if not ok:
+        raise Violation(_p(w), "fault_recovery", "%s: a fresh write_nc(mode='w') + read_nc of %s does not work (%s)" % (where, path, err))
+    w.count("fault:recovery_verified")
